@@ -330,6 +330,17 @@ impl Property for StoreProp {
                     ops.push(Op::S(gen_put(rng, 2, 3)));
                 }
                 if rng.chance(1, 3) {
+                    // an author whose entries all sit at the smallest timestamps there are
+                    let a0 = rng.below(3);
+                    for o in ops.iter_mut() {
+                        if let Op::S(SOp::Put { a, ts, .. }) = o {
+                            if *a == a0 {
+                                *ts = if rng.chance(2, 3) { 0 } else { 1 };
+                            }
+                        }
+                    }
+                }
+                if rng.chance(1, 3) {
                     ops.push(Op::S(SOp::Peer { n: 0, t: 500, p: 1 }));
                     ops.push(Op::S(SOp::SetPolicy { n: 1, pol: gen_pol(rng) }));
                 }
